@@ -305,7 +305,7 @@ func runC03(r *h.Run) {
 			}
 		}
 	}
-	if armed && len(r.Spec.Triggers) > 0 && w.Faults["trigger."+strings.SplitN(r.Spec.Triggers[0].Act, ":", 2)[0]] == 0 {
+	if armed && len(r.Spec.Triggers) > 0 && w.FaultCount("trigger."+strings.SplitN(r.Spec.Triggers[0].Act, ":", 2)[0]) == 0 {
 		w.Probe("crashpoint.not-reached")
 	} else if armed {
 		w.Probe("crashpoint.reached")
